@@ -90,23 +90,25 @@ def to_fraction_lengths(L):
     return [[(Fraction(float(L[i][j])) if (i != j and L[i][j] != 0) else None) for j in range(n)] for i in range(n)]
 
 
-def exact_sp(Lf):
-    """All-pairs exact shortest paths on a length matrix of Fractions/ints (None = no edge).
+def exact_sp(Lf, combine=None, better=None, unit=0):
+    """All-pairs exact shortest paths on a matrix of exact numbers (None = no edge).
 
-    Lengths must be >= 0 (zero-length edges allowed).
-    Returns dict with
-      D[s][t]   exact distance or None (unreachable); D[s][s] = 0
-      hops[s][t] set of hop counts of minimum-length s->t paths (simple or not
-                 is irrelevant for positive lengths; with zero-length edges we
-                 bound hops by n-1 i.e. simple paths)
-    """
+    Default semiring (min, +) with unit 0: entries are lengths >= 0.
+    With combine=mul, better=gt, unit=1 it is the (max, x) semiring used for
+    the 'log' transform: entries are weights in (0,1], the best path has the
+    largest product (= smallest sum of -log w), decided exactly.
+    Returns D with D[s][t] = best value or None (unreachable); D[s][s] = unit."""
+    if combine is None:
+        combine = lambda a, b: a + b
+    if better is None:
+        better = lambda a, b: a < b
     n = len(Lf)
     D = [[None] * n for _ in range(n)]
     for i in range(n):
-        D[i][i] = 0
         for j in range(n):
             if i != j and Lf[i][j] is not None:
                 D[i][j] = Lf[i][j]
+        D[i][i] = unit
     for k in range(n):
         Dk = D[k]
         for i in range(n):
@@ -118,20 +120,21 @@ def exact_sp(Lf):
                 dkj = Dk[j]
                 if dkj is None:
                     continue
-                c = dik + dkj
-                if Di[j] is None or c < Di[j]:
+                c = combine(dik, dkj)
+                if Di[j] is None or better(c, Di[j]):
                     Di[j] = c
     return D
 
 
-def hop_sets(Lf, D):
+def hop_sets(Lf, D, combine=None):
     """hops[s][t] = set of h in 1..n-1 such that some s->t walk with h edges has
-    total length D[s][t] (walks on the exact shortest-path DAG; with positive
-    lengths these are exactly the shortest paths)."""
+    total value exactly D[s][t] (walks along tight edges; with positive lengths
+    these are exactly the shortest paths)."""
+    if combine is None:
+        combine = lambda a, b: a + b
     n = len(Lf)
     res = [[set() for _ in range(n)] for _ in range(n)]
     for s in range(n):
-        # layer[h] = set of nodes v such that a tight walk with h edges from s reaches v
         cur = {s}
         for h in range(1, n):
             nxt = set()
@@ -141,7 +144,7 @@ def hop_sets(Lf, D):
                     l = Lf[u][v]
                     if l is None or u == v:
                         continue
-                    if D[s][v] is not None and du + l == D[s][v]:
+                    if D[s][v] is not None and combine(du, l) == D[s][v]:
                         nxt.add(v)
             for v in nxt:
                 if v != s:
@@ -150,6 +153,21 @@ def hop_sets(Lf, D):
             if not cur:
                 break
     return res
+
+
+def hop_min_len(L, s, hmax=None):
+    """best[h][v] = minimum total length of a walk with exactly h edges from s
+    to v (h = 0..hmax-1, default hmax = n), inf if none. L: float matrix of lengths, inf/0 = no edge
+    handled by caller passing np.inf for absent edges. Float DP used where only
+    a tolerance comparison is meaningful."""
+    n = len(L)
+    hmax = hmax or n
+    best = np.full((hmax, n), INF)
+    best[0, s] = 0.0
+    for h in range(1, hmax):
+        # best[h][v] = min_u best[h-1][u] + L[u][v]
+        best[h] = np.min(best[h - 1][:, None] + L, axis=0)
+    return best
 
 
 def count_sp(Lf, D):
